@@ -501,6 +501,8 @@ def execute(plan):
             gf = resp is not None and any(
                 it['reason_name'] == 'GeneralFailure' for it in resp.items)
             if W.last['escape']:
+                if 'GetAttributes response payload' in W.last['escape']:
+                    opname = 'GetAttributes'
                 flag('exception-left-message-loop', op=opname, otype=otype,
                      exception=W.last['escape'].split(':')[0],
                      site='session.py:_handle_message_loop',
